@@ -57,8 +57,22 @@ Proof.
   - rewrite (Hn eq_refl). exact H2.
 Qed.
 
-(* every step of a program is one of the three re-wraps: the invariant holds along any program *)
+(* copy_ from a source of the same size quantized along ANOTHER axis (after the repair F37): the destination takes the
+   source's codes, scale and axis and keeps its size / stride *)
+Definition rewrap_adopt (q src : qbytes F) (data' : tensor F) : qbytes F :=
+  QBytes (qb_qtype q) (qb_axis src) (qb_size q) (qb_stride q) data' (qb_scale src).
+
+Theorem adopt_preserves_inv (q src : qbytes F) (data' : tensor F) :
+  qb_size q = qb_size src -> shape data' = shape (qb_data src) ->
+  qb_inv src = true -> qb_inv (rewrap_adopt q src data') = true.
+Proof.
+  intros Hsz Hd H. unfold qb_inv, rewrap_adopt in *. cbn [qb_data qb_size qb_axis qb_scale]. rewrite Hd, Hsz. exact H.
+Qed.
+
+(* every step of a program is one of the four re-wraps: the invariant holds along any program *)
 Inductive step : qbytes F -> qbytes F -> Prop :=
+| step_adopt q src data' : qb_size q = qb_size src -> shape data' = shape (qb_data src) -> qb_inv src = true ->
+    step q (rewrap_adopt q src data')
 | step_same q data' scale' : shape data' = shape (qb_data q) -> shape scale' = shape (qb_scale q) ->
     step q (rewrap_same q data' scale')
 | step_move q moved : qb_axis q = None -> step q (rewrap_moved q moved)
@@ -74,7 +88,8 @@ Inductive steps : qbytes F -> qbytes F -> Prop :=
 Theorem invariant_along_programs (q q' : qbytes F) : steps q q' -> qb_inv q = true -> qb_inv q' = true.
 Proof.
   induction 1 as [q|q1 q2 q3 H12 _ IH]; intros H; [exact H|]. apply IH.
-  destruct H12 as [q data' scale' Hd Hs|q moved Ha|q d0 d1 data' scale' Hsz Hd Hn Hs].
+  destruct H12 as [q src data' Hsz Hd Hsrc|q data' scale' Hd Hs|q moved Ha|q d0 d1 data' scale' Hsz Hd Hn Hs].
+  - exact (adopt_preserves_inv q src data' Hsz Hd Hsrc).
   - exact (same_layout_preserves_inv q data' scale' Hd Hs H).
   - exact (rewrap_preserves_inv q moved Ha H).
   - exact (transpose2d_preserves_inv q d0 d1 data' scale' Hsz Hd Hn Hs H).
@@ -86,3 +101,13 @@ Example transpose2d_example :
   let q := QBytes qint8 (Some 0) [3; 2] [2; 1] (T [3; 2] (repeat 0 6)) (T [3; 1] [1; 2; 3]) in
   qb_inv q = true /\ qb_inv (rewrap_t q (T [2; 3] (repeat 0 6)) (T [1; 3] [1; 2; 3])) = true.
 Proof. vm_compute. split; reflexivity. Qed.
+
+(* the variant that adopts the source's scale but KEEPS the destination's axis (what copy_ would do without the axis
+   assignment) breaks the invariant: a per-tensor 3x2 destination receiving a source quantized along its first axis *)
+Example adopt_stale_axis_refuted :
+  let q := QBytes qint8 None [3; 2] [2; 1] (T [3; 2] (repeat 0 6)) (T [] [5]) in
+  let src := QBytes qint8 (Some 0) [3; 2] [2; 1] (T [3; 2] (repeat 1 6)) (T [3; 1] [1; 2; 3]) in
+  qb_inv q = true /\ qb_inv src = true /\
+  qb_inv (QBytes (qb_qtype q) (qb_axis q) (qb_size q) (qb_stride q) (qb_data src) (qb_scale src)) = false /\
+  qb_inv (rewrap_adopt q src (qb_data src)) = true.
+Proof. vm_compute. repeat split; reflexivity. Qed.
